@@ -1,20 +1,36 @@
 #!/bin/bash
-# tools/seed_matrix.sh [seed-id ...]: apply each seeded change to /repo, run the quick check of its property
-# (plus extra properties listed in seeded/<id>/also), undo; print one line per seed.
+# tools/seed_matrix.sh [seed-id ...]: for each seeded change, copy /repo's package to a scratch directory outside /repo and
+# /verif, apply the change there, run the quick check of its property (plus properties listed in seeded/<id>/also) against
+# that copy (STATHAM_REPO) with outputs redirected (VERIF_OUT), and record which tier caught it.  /repo is never touched.
+# Result lines go to stdout and to seeded/MATRIX.tsv.
 cd /verif
-ids="$@"; [ -z "$ids" ] && ids=$(ls seeded)
+ids="$@"; [ -z "$ids" ] && ids=$(ls seeded | grep -v MATRIX)
+work=$(mktemp -d /tmp/seedrun.XXXXXX)
+trap 'rm -rf "$work"' EXIT
 for id in $ids; do
   prop=${id%%-*}
   also=$(cat seeded/$id/also 2>/dev/null)
-  git -C /repo diff --quiet || { echo "/repo dirty"; exit 2; }
-  git -C /repo apply /verif/seeded/$id/patch.diff 2>/dev/null || { echo "$id PATCH-FAIL"; continue; }
-  line="$id:"
+  rm -rf "$work/tree" "$work/out"; mkdir -p "$work/tree" "$work/out"
+  (cd /repo && git archive HEAD) | tar -x -C "$work/tree"
+  (cd "$work/tree" && patch -s -p1 < /verif/seeded/$id/patch.diff) || { echo -e "$id\tPATCH-FAIL"; continue; }
   for p in $prop $also; do
-    out=$(./check $p --tier quick 2>&1); rc=$?
-    nv=$(echo "$out" | grep -c "^VIOLATION")
-    first=$(echo "$out" | grep -A1 "^VIOLATION" | sed -n 2p | cut -c1-110)
-    line="$line [$p rc=$rc viol=$nv $first]"
+    out=$(STATHAM_REPO="$work/tree" VERIF_OUT="$work/out" ./check $p --tier quick 2>&1); rc=$?
+    ded=0; nat=0; bnd=0
+    for f in "$work"/out/replays/$p/*.json; do
+      [ -f "$f" ] || continue
+      k=$(python3 - "$f" <<'PY'
+import json,sys
+d=json.load(open(sys.argv[1]))
+if "obligation" in d:
+    print("native" if d.get("witness") or "/native" in d.get("obligation","") else "deductive")
+else:
+    print("bounded")
+PY
+)
+      case $k in deductive) ded=$((ded+1));; native) nat=$((nat+1));; *) bnd=$((bnd+1));; esac
+    done
+    first=$(echo "$out" | grep -A1 "^VIOLATION" | sed -n 2p | cut -c1-140 | tr '\t' ' ')
+    echo -e "$id\t$p\trc=$rc\tobligation-failed=$ded\tobligation+native-witness=$nat\tbounded=$bnd\t$first"
+    rm -rf "$work/out/replays"
   done
-  git -C /repo checkout -- .
-  echo "$line"
-done
+done | tee seeded/MATRIX.tsv
